@@ -137,6 +137,10 @@ aa = first
 `},
 	{Name: "d.csv", Fmt: "csv", Group: "C", Text: "name,n,flag\nann,30,true\nbob,4,false\ncyd,17,true\n"},
 	{Name: "d.tsv", Fmt: "tsv", Group: "C", Text: "name\tn\tflag\nann\t30\ttrue\nbob\t4\tfalse\n"},
+	// records under OTHER column names (a row-wise encoder that serves both must write each under its own header)
+	{Name: "d2.csv", Fmt: "csv", Group: "C2", Text: "id,colour\n7,red\n8,blue\n"},
+	// a Lua script that sets globals and returns nothing: the globals are the document, in assignment order
+	{Name: "d_globals.lua", Fmt: "lua", Group: "L2", Text: "name = \"glob\"\nn = 3\nlist = {1, 2}\nflag = true\nzz = \"q\"\nother = 1.5\nlast = \"w\"\n"},
 	{Name: "d.xml", Fmt: "xml", Group: "X", Text: `<?xml version="1.0" encoding="UTF-8"?>
 <!-- top comment -->
 <root version="2">
@@ -487,6 +491,19 @@ func c18BuildPool() bool {
 		add(c18Entry{Expr: ex, Files: []string{"d_cmt.yaml"}, In: "yaml", Out: c18Outs[(i+1)%2], All: true})
 		add(c18Entry{Expr: ex, Files: []string{"d_empty.yaml", "d_map.yaml"}, In: "yaml", Out: c18Outs[i%2], All: true})
 		add(c18Entry{Expr: ex, Files: []string{"d_map2.yaml"}, In: "yaml", Out: c18Outs[i%2], All: true})
+	}
+	// one row-wise encoder for records under different column names (in one run, and from entry to entry of a history)
+	for _, o := range []string{"csv", "tsv"} {
+		add(c18Entry{Expr: ".", Files: []string{"d.csv", "d2.csv"}, In: "csv", Out: o})
+		add(c18Entry{Expr: ".", Files: []string{"d2.csv", "d.csv"}, In: "csv", Out: o})
+		add(c18Entry{Expr: ".", Files: []string{"d2.csv"}, In: "csv", Out: o})
+		add(c18Entry{Expr: ".", Files: []string{"d.csv"}, In: "csv", Out: o})
+		add(c18Entry{Expr: `map(pick(["grp", "name"]))`, Files: []string{"d_arr.yaml"}, In: "yaml", Out: o})
+		add(c18Entry{Expr: `map(pick(["n"]))`, Files: []string{"d_arr2.yaml", "d_arr.yaml"}, In: "yaml", Out: o})
+	}
+	for _, ex := range []string{".", "keys", "to_json(0)", "to_entries | map(.key) | join(\",\")", ".name"} {
+		add(c18Entry{Expr: ex, Files: []string{"d_globals.lua"}, In: "lua", Out: "json"})
+		add(c18Entry{Expr: ex, Files: []string{"d_globals.lua"}, In: "lua", Out: "yaml"})
 	}
 	coreSeen := map[string]bool{}
 	for _, e := range c18Pool {
